@@ -201,6 +201,14 @@ theorem run_shape (ρ : List FunDef) : ∀ (f : Nat) (j : Job) (s : St), (run ρ
         · rw [withFnCall_shape _ _ (fun t3 => by repeat' split
                                                  all_goals simp)]
           exact ht2
+      | evalStr nids n =>
+        simp only [run]
+        refine withFnCall_shape _ _ (fun t0 => ?_)
+        ihrun ih (.node n) (t0.dropHints nids)
+        have hh' : tt.shape = t0.shape := by rw [hh]; rfl
+        cases oo <;> try exact hh'
+        rename_i e
+        cases e <;> first | exact hh' | (simp [hh'])
       | foldR op a c =>
         simp only [run]
         refine bnd_shape _ _ _ (ih _ _) (fun la t ht => ?_)
